@@ -130,13 +130,13 @@ package kv
 //@ # the rollup mapping itself: a source slot's timestamp, and the target slot that contains a timestamp
 //@ pure intervalKind(i int64) int = ite(i >= 3600000, 3, ite(i >= 300000, 2, 1))
 //@ func rollup.GetTimestamp
-//@   prop C04
+//@   prop C04 C13
 //@   arith math
 //@   requires int64(r.source) >= 1000 && int64(r.source) <= 86400000 && r.sourceFTime >= 0 && r.sourceFTime <= 4102444800000
 //@   ensures[timestamp_of_a_source_slot] result == r.sourceFTime + int64(slot) * int64(r.source)
 //@ end
 //@ func rollup.CalcSlot
-//@   prop C04
+//@   prop C04 C13
 //@   arith math
 //@   requires int64(r.target) >= 1000 && tsOK(timestamp) && calMs(r.targetFTime) && r.targetFTime <= timestamp && timestamp <= kFamilyEnd(intervalKind(int64(r.target)), r.targetFTime)
 //@   ensures[the_target_slot_contains_the_timestamp] r.targetFTime + int64(result) * int64(r.target) <= timestamp && timestamp < r.targetFTime + int64(result) * int64(r.target) + int64(r.target)
@@ -301,13 +301,13 @@ package kv
 //@ # CalcSlot(GetTimestamp(s)). The property asks for the slot that contains the timestamp, so the rule has to agree
 //@ # with the mapping for every interval pair the database option admits ----------------------------------------------
 //@ func rollup.IntervalRatio
-//@   prop C04
+//@   prop C04 C13
 //@   arith math
 //@   requires int64(r.source) >= 1000 && int64(r.target) >= int64(r.source) && int64(r.target) <= 86400000 && int64(r.target) / int64(r.source) <= 65535
 //@   ensures[the_ratio_is_the_integer_quotient_of_the_intervals] int64(result) == int64(r.target) / int64(r.source)
 //@ end
 //@ func rollup.BaseSlot
-//@   prop C04
+//@   prop C04 C13
 //@   arith math
 //@   requires int64(r.target) >= 1000 && tsOK(r.sourceFTime) && calMs(r.targetFTime) && r.targetFTime <= r.sourceFTime && r.sourceFTime <= kFamilyEnd(intervalKind(int64(r.target)), r.targetFTime)
 //@   ensures[the_base_slot_contains_the_start_of_the_source_family] r.targetFTime + int64(result) * int64(r.target) <= r.sourceFTime && r.sourceFTime < r.targetFTime + int64(result) * int64(r.target) + int64(r.target)
